@@ -1543,8 +1543,9 @@ class Server:
 
     @ConnectionConditions(ConnectionConditions.login_required)
     async def abor(self, connection, rest):
-        if connection.extra_workers:
-            for worker in connection.extra_workers:
+        workers = [w for w in connection.extra_workers if not w.done()]
+        if workers:
+            for worker in workers:
                 worker.cancel()
         else:
             connection.response("226", "nothing to abort")
